@@ -38,6 +38,7 @@ var addrExec = map[string]h.ExecFn{
 	"addr.tlb":       exAddrTlb,
 	"addr.from_tlb":  exAddrFromTlb,
 	"addr.anycast":   exAddrAnycast,
+	"shard.match_acct": exShardMatchAcct,
 	"addr.tlb_parse": exAddrTlbParse,
 	"addr.tlb_bits":  exAddrTlbBits,
 	"addr.subst":     exAddrSubst,
@@ -194,6 +195,18 @@ func bitStringBits(b *boc.BitString) string {
 		return "-"
 	}
 	return sb.String()
+}
+
+// exShardMatchAcct: ShardID.MatchAccountID on a full 32-byte account address
+func exShardMatchAcct(a []string) string {
+	s, err := ton.ParseShardID(int64(u64(a[0])))
+	if err != nil {
+		return "err"
+	}
+	if s.MatchAccountID(acctArg("0", a[1])) {
+		return "ok 1"
+	}
+	return "ok 0"
 }
 
 func anycastStr(m tlb.Maybe[tlb.Anycast]) string {
@@ -813,6 +826,24 @@ func genC17Addr(g *h.G) {
 		}
 		g.NonTrivial("acct/" + ws + "/" + as)
 		g.Emit("go.addr.roundtrip", ws, as)
+		{ // the account against a shard whose prefix is (mostly) taken from the address itself
+			pb := uint(g.Rng.Intn(64))
+			top := binary.BigEndian.Uint64(a[:8])
+			var pfx uint64
+			if pb > 0 {
+				pfx = top &^ (^uint64(0) >> pb)
+			}
+			if g.Rng.Intn(3) == 0 && pb > 0 {
+				pfx ^= 1 << (64 - pb)
+			}
+			if g.Rng.Intn(6) == 0 {
+				pfx = g.U64() &^ (^uint64(0) >> pb)
+				if pb == 0 {
+					pfx = 0
+				}
+			}
+			g.Emit("shard.match_acct", fmt.Sprint(pfx|1<<(63-pb)), as)
+		}
 		g.Emit("go.addr.flags", ws, as)
 		g.Emit("addr.raw", ws, as)
 		g.Emit("addr.json", ws, as)
